@@ -9,3 +9,7 @@ fn verif_vec_extend<T>(v: &mut Vec<T>, other: Vec<T>)
 {
     v.extend(other)
 }
+
+// [A-std] Iterator::count on a Filter adapter: the number of items it would still yield
+pub assume_specification<I: Iterator, P: FnMut(&I::Item) -> bool>[ <core::iter::Filter<I, P> as Iterator>::count ](it: core::iter::Filter<I, P>) -> (r: usize)
+    ensures it.obeys_prophetic_iter_laws() ==> r == it.remaining().len();
